@@ -177,9 +177,14 @@ Definition e_eff (b : bid) (ks : list kp) (e : estate) : estate * option result 
   | 17 => (let e1 := ins (data_of ks) e in mkE (etext e1) (ecur e1) false (unmod e1) (eextra e1), None)
   | 18 => (ins (crlf (data_of ks)) e, None)
   | 19 => (e, None)
+  | 20 => (e, None)          (* _newline2: only feeds a key, see e_feeds *)
   | _ => (mkE t c (equoted e) true (eextra e), None)
   end.
 Definition e_is_cprh (b : bid) : bool := snd b =? 19.
+(* _newline2 (C-j): event.key_processor.feed(KeyPress(Keys.ControlM, "\r"), first=True) *)
+Definition key_ControlM : Z := 15.
+Definition e_feeds (b : bid) (ks : list kp) (e : estate) : list kp :=
+  if snd b =? 20 then [(KKey key_ControlM, [13])] else [].
 
 (* ---------------------------------------------------------------------- *)
 (* Parser: Vt100Input.read_keys() / flush_keys() hand over what the parser
@@ -191,6 +196,6 @@ Definition e_pflush (p : pstate) : pstate * list kp := let p' := flush p in (p',
 
 Definition esys := sys estate bid result pstate.
 Definition e_step : esys -> label -> esys :=
-  @step estate bid result pstate e_lookup e_lookup_scan e_waits e_eff e_is_cprh e_cpr_lookup e_restart e_pfeed e_pflush REof.
+  @step estate bid result pstate e_lookup e_lookup_scan e_waits e_eff e_is_cprh e_cpr_lookup e_feeds e_restart e_pfeed e_pflush REof.
 Definition e_run (ls : list label) (s : esys) : esys := fold_left e_step ls s.
 Definition e_init_sys (r x : bool) : esys := @init estate bid result pstate (e_init x) Model.C03_Vt100Parser.init r.
